@@ -10,14 +10,22 @@ import CwMt.Proofs.StakingExample
   `creditOf S A c sa T` is what one `update_rewards` adds to the delegator's accumulator (`credit_is_creditOf`).
 
   Proved here: the exact statements (`withdraw_exact`, `mints_nothing_else`, `others_unaffected`, `zero_rejected`,
-  `crediting_is_invisible`) for all states, and the per-update rounding bounds `upper_step` / `lower_step` with their
-  sum over any split of a period of constant stake (`path_independent_upper/lower`).
-  NOT proved (covered by the correspondence slice + the exact-rational predicate `pred_c15` only): the history-level
-  statements `upper` / `lower` of DESIGN.md over arbitrary interleavings with changing stakes, i.e. the induction that
-  sums `upper_step` / `lower_step` over all updates of a history with per-update values of `S` and `sa`
-  ("E_so_far − κ·n·ε ≤ acc ≤ E_so_far + κ·n·ε"). `lower_step` needs the hypothesis `0 < S`: when the validator total
-  is 0 while a share is positive nothing is credited (see the report of the staking slice: this is reachable on the
-  real code after two fractional slashes and breaks the property's lower bound).
+  `crediting_is_invisible`) for all states; the per-update rounding bounds `upper_step` / `lower_step` with their sum over
+  any split of a period of constant stake (`path_independent_upper/lower`); with invariant I5 of C14 (validator total ≥
+  whole tokens of the sum of its shares, restored by the fix of `slash`) the bounds free of the validator total
+  `upper_step_free` (credit ≤ exact + 2 atomics) and `lower_step_free` (exact ≤ credit + 4 atomics), whose side conditions
+  hold for every SHOWN delegation (`shown_delegation_accrues`: total ≥ 1 token, share < total + 1 tokens); and their sum
+  over a whole delegation period as an invariant of the reward ledger (`history_bounds`): for ANY interleaving of reward
+  updates (each with its own validator total, share and time span) and withdrawals
+        withdrawn + accumulator ≤ Σ exact + 2·n atomics,   Σ exact ≤ withdrawn + accumulator + w tokens + 4·n atomics
+  (n updates, w withdrawals; the shown pending reward is the floor of the accumulator, which costs the final "+1 token").
+  The model's operations are steps of that ledger: `update_is_credit` (an `update_rewards` adds exactly `creditOf …` to
+  the accumulator of every recorded delegator and keeps the stake), `withdraw_exact` (a withdrawal pays the floor and
+  resets).
+  NOT proved (covered by the correspondence slice + the exact-rational predicate `pred_c15` only): the bookkeeping that
+  replays an arbitrary operation history `runAll cfg c ops` as a ledger trace of one pair (which operation is which
+  ledger step, and that the period ends when the record is dropped) — the arithmetic and the two per-operation links are
+  proved, their composition over `Op` lists is not.
 -/
 namespace CwMt.C15
 open CwMt CwMt.Staking KMap
@@ -93,6 +101,35 @@ theorem path_independent_lower (S A c sa : Nat) (hS : 0 < S) (hc : c ≤ Dec.ONE
       ≤ ((Ts.map (creditOf S A c sa)).sum + Ts.length) * (S * Dec.ONE * Dec.ONE * YEAR)
         + Ts.length * (Dec.ONE * Dec.ONE * YEAR + YEAR * (Dec.ONE - c) * sa) := split_lower S A c sa hS hc Ts
 
+/-- Under I5 every shown delegation accrues: the validator total is positive and the share is below total + 1 tokens
+(the side conditions of the bounds below; before the fix of `slash` the total could be 0 under a shown delegation). -/
+theorem shown_delegation_accrues {s : SState} (ht : TInv s) {d : Addr} {v : String} {sh : Shares} {vi : ValInfo}
+    (hs : get? s.stakes (d, v) = some sh) (hv : get? s.vinfo v = some vi) (hpos : 0 < sh.stake.floor) (T : Nat) :
+    (Ev.mk vi.stake sh.stake.atomics T).ok := shown_event_ok ht hs hv hpos T
+
+/-- Upper bound of one update without the validator total: credit ≤ exact + 2 atomics (`P0 = 10^18·10^18·YEAR`). -/
+theorem upper_step_free (S A c sa T : Nat) (hS : 0 < S) (hc : c ≤ Dec.ONE) (hsa : sa ≤ Dec.ONE * (S + 1)) :
+    creditOf S A c sa T * P0 ≤ A * T * (Dec.ONE - c) * sa + 2 * P0 := credit_upper_free S A c sa T hS hc hsa
+
+/-- Lower bound of one update without the validator total: exact ≤ credit + 4 atomics. -/
+theorem lower_step_free (S A c sa T : Nat) (hS : 0 < S) (hc : c ≤ Dec.ONE) (hsa : sa ≤ Dec.ONE * (S + 1)) :
+    A * T * (Dec.ONE - c) * sa ≤ (creditOf S A c sa T + 4) * P0 := credit_lower_free S A c sa T hS hc hsa
+
+/-- History level: both bounds hold after any interleaving of reward updates and withdrawals of one delegation period
+(`Ledger.Good` = withdrawn + accumulator ≤ Σ exact + 2n atomics ∧ Σ exact ≤ withdrawn + accumulator + w tokens + 4n
+atomics). -/
+theorem history_bounds (A c : Nat) (hc : c ≤ Dec.ONE) (steps : List LStep) (hok : ∀ st ∈ steps, st.ok) :
+    (Ledger.run A c {} steps).Good := Ledger.good_run A c hc steps {} hok Ledger.good_init
+
+/-- A reward update of the model is a `credit` step of that ledger for every recorded delegator. -/
+theorem update_is_credit {s s1 : SState} {now : Nat} {v : String} {d : Addr} {vi : ValInfo} {vo : Validator}
+    {sh : Shares} (hi : SInv s) (h : updateRewards s now v = .ok s1)
+    (hvi : get? s.vinfo v = some vi) (hvo : s.validator? v = some vo) (hsh : get? s.stakes (d, v) = some sh)
+    (hlt : vi.last < now) (hS : vi.stake ≠ 0) :
+    (curShares s1 d v).rewards.atomics = sh.rewards.atomics +
+        creditOf vi.stake s.info.apr.atomics vo.commission.atomics sh.stake.atomics (now - vi.last) ∧
+    (curShares s1 d v).stake = sh.stake := Staking.update_is_credit hi h hvi hvo hsh hlt hS
+
 /-! ### non-vacuity -/
 
 /-- 10 tokens at 100 % for one year show a reward of 10; the withdrawal pays 10 and resets it -/
@@ -106,10 +143,13 @@ example : (curShares (runAll exCfg exChain [.delegate "d1" "v1" ⟨"TOKEN", 1⟩
     = 999999999999999999 := by decide
 example : (step exCfg (runAll exCfg exChain [.delegate "d1" "v1" ⟨"TOKEN", 1⟩]).1 (.withdraw "d1" "v1")).2 = .err := by
   decide
-/-- the excluded point of `lower_step` (validator total 0 under a positive share): 3 tokens, two 10 % slashes, one
-token undelegated — the delegation shows 1 token and earns nothing in two years at 100 % -/
+/-- the old F1 shape (validator total 0 under a shown delegation) is gone: 3 tokens, two 10 % slashes, 2 undelegated —
+0.43 tokens remain (nothing shown), and with only 1 undelegated the shown token earns its 2.86 tokens in two years -/
 example : queryDelegation exCfg (runAll exCfg exChain [.delegate "d1" "v1" ⟨"TOKEN", 3⟩,
     .slash "v1" ⟨100000000000000000⟩, .slash "v1" ⟨100000000000000000⟩, .undelegate "d1" "v1" ⟨"TOKEN", 1⟩,
-    .advance 63072000]).1 "d1" "v1" = .ok (some (1, 0)) := by decide
+    .advance 63072000]).1 "d1" "v1" = .ok (some (1, 2)) := by decide
+example : (Ledger.run 1000000000000000000 0 {} [.credit ⟨1, 1000000000000000000, 10512000⟩,
+    .credit ⟨1, 1000000000000000000, 10512000⟩, .credit ⟨1, 1000000000000000000, 10512000⟩, .withdraw]).paid = 0 := by
+  decide
 
 end CwMt.C15
